@@ -1,7 +1,237 @@
-From Coq Require Import List Arith Bool PeanoNat Lia.
+(* C12 — Qiskit conversion preserves the circuit's unitary, or refuses.
+   Statements only; every proof is [exact <lemma>].  The model (Model/Convert.v)
+   carries the REPAIRED post-selection rule (finding F2) and reads qubits as
+   circuit-level indices (finding N10).  What is proved here is about the
+   converter's DECISIONS; the gate matrices are C13, Circuit.add is C02, and the
+   amplitude-level statement is checked on the implementation by the oracle of
+   harness/c12.py. *)
+From Coq Require Import List Arith Bool PeanoNat Lia Permutation.
 From LW Require Import Base.Sx Model.Convert Proofs.ConvertP.
 Import ListNotations.
 
-Theorem C12_analyzer_length : forall gs, length (fst (analyze gs)) = length gs.
-Proof. exact analyze_length. Qed.
-Print Assumptions C12_analyzer_length.
+(* ---- convert_two_qubits_to_adjacent, all q0 <> q1 (unbounded) ------------- *)
+(* the result is an adjacent pair in the same order; applying the returned swaps
+   (in list order) moves q0 to a and q1 to b, applying them again restores every
+   qubit; everything stays inside [min q0 q1, max q0 q1] *)
+Theorem C12_adjacent_spec :
+  forall q0 q1, q0 <> q1 ->
+  exists a b sw,
+    convert_two_qubits_to_adjacent q0 q1 = Some (a, b, sw) /\
+    absdiff a b = 1 /\
+    (q0 < q1 <-> a < b) /\
+    apply_swaps sw q0 = a /\ apply_swaps sw q1 = b /\
+    (forall x, apply_swaps sw (apply_swaps sw x) = x) /\
+    Nat.min q0 q1 <= Nat.min a b /\ Nat.max a b <= Nat.max q0 q1 /\
+    (forall p, In p sw -> fst p <> snd p /\
+                          Nat.min q0 q1 <= fst p <= Nat.max q0 q1 /\
+                          Nat.min q0 q1 <= snd p <= Nat.max q0 q1) /\
+    (forall x, x < Nat.min q0 q1 \/ Nat.max q0 q1 < x -> apply_swaps sw x = x).
+Proof. exact adjacent_spec. Qed.
+Print Assumptions C12_adjacent_spec.
+
+(* closed form: the pair meets in the middle *)
+Theorem C12_adjacent_closed_form :
+  forall q0 q1, q0 <> q1 ->
+    convert_two_qubits_to_adjacent q0 q1 = Some (adjacent_result q0 q1).
+Proof. exact adjacent_closed. Qed.
+Print Assumptions C12_adjacent_closed_form.
+
+(* the Python while loop terminates exactly when the two qubits differ *)
+Theorem C12_adjacent_terminates_iff :
+  forall q0 q1, convert_two_qubits_to_adjacent q0 q1 = None <-> q0 = q1.
+Proof. exact adjacent_diverges_iff. Qed.
+Print Assumptions C12_adjacent_terminates_iff.
+
+Example C12_adjacent_example :
+  convert_two_qubits_to_adjacent 5 0 = Some (3, 2, [(0, 2); (5, 3)]) /\
+  apply_swaps [(0, 2); (5, 3)] 5 = 3 /\ apply_swaps [(0, 2); (5, 3)] 0 = 2.
+Proof. repeat split. Qed.
+
+(* ---- post_selection_analyzer, every program --------------------------------- *)
+Theorem C12_analyzer_spec :
+  (forall gs, length (fst (analyze gs)) = length gs) /\
+  (forall pre g post,
+      nth (length pre) (fst (analyze (pre ++ g :: post))) false = true <->
+      2 <= length (g_qubits g) /\ count_touched post (g_qubits g) <= 1) /\
+  (forall gs q, In q (ps_qubits (snd (analyze gs))) <-> touched gs q) /\
+  (forall gs, NoDup (ps_qubits (snd (analyze gs)))).
+Proof. exact analyzer_spec. Qed.
+Print Assumptions C12_analyzer_spec.
+
+(* count_touched <= 1 means: no two qubit slots of the gate are used later *)
+Theorem C12_count_touched_meaning :
+  forall post qs,
+    count_touched post qs <= 1 <->
+    (forall i j, i < length qs -> j < length qs ->
+                 touched post (nth i qs 0) -> touched post (nth j qs 0) -> i = j).
+Proof. exact count_touched_spec. Qed.
+Print Assumptions C12_count_touched_meaning.
+
+(* ---- acceptance and refusals ------------------------------------------------ *)
+(* the conversion returns something exactly when every instruction is acceptable
+   with the flag it receives (which depends on the LATER instructions only) *)
+Theorem C12_convert_ok_iff :
+  forall allow gs,
+    (exists r, convert allow gs = Ok r) <->
+    (forall pre g post, gs = pre ++ g :: post -> acceptable g (allow && can_ps g post)).
+Proof. exact convert_ok_iff. Qed.
+Print Assumptions C12_convert_ok_iff.
+
+(* the named refusals: unsupported gate; 0 or more than 3 qubits; three-qubit
+   gate with allow_post_selection = False, or with two qubits used by a later
+   multi-qubit gate, or on non-adjacent qubits; supported name with the wrong
+   number of qubits.  First such instruction => ValueError, nothing returned. *)
+Theorem C12_refusals :
+  forall allow pre g post,
+    (forall pre' g' post', pre = pre' ++ g' :: post' ->
+          acceptable g' (allow && can_ps g' (post' ++ g :: post))) ->
+    refusable allow g post ->
+    convert allow (pre ++ g :: post) = Err ValueError.
+Proof. exact refusals. Qed.
+Print Assumptions C12_refusals.
+
+Theorem C12_refusable_never_converted :
+  forall allow pre g post,
+    refusable allow g post -> exists e, convert allow (pre ++ g :: post) = Err e.
+Proof. exact refusable_never_converted. Qed.
+Print Assumptions C12_refusable_never_converted.
+
+(* in general the exception is that of the FIRST unacceptable instruction *)
+Theorem C12_first_refusal :
+  forall allow pre g post,
+    (forall pre' g' post', pre = pre' ++ g' :: post' ->
+          acceptable g' (allow && can_ps g' (post' ++ g :: post))) ->
+    ~ acceptable g (allow && can_ps g post) ->
+    convert allow (pre ++ g :: post) = Err (refusal_class g).
+Proof. exact convert_first_refusal. Qed.
+Print Assumptions C12_first_refusal.
+
+(* for programs built with qiskit's own gate methods every refusal is a ValueError *)
+Theorem C12_error_is_ValueError :
+  forall allow gs e, Forall standard gs -> convert allow gs = Err e -> e = ValueError.
+Proof. exact convert_error_is_ValueError. Qed.
+Print Assumptions C12_error_is_ValueError.
+
+Example C12_refusal_examples :
+  convert false [mkG Gccz [0; 1; 2] false] = Err ValueError /\
+  convert true [mkG Gccz [0; 1; 3] false] = Err ValueError /\
+  convert true [mkG Gccz [0; 1; 2] false; mkG Gcz [0; 1] false] = Err ValueError /\
+  convert true [mkG Gother [0; 1] false] = Err ValueError /\
+  convert true [mkG Gcx [0; 1; 2; 3] false] = Err ValueError /\
+  (exists r, convert true [mkG Gcz [0; 1] false; mkG Gccz [2; 1; 0] false] = Ok r).
+Proof. repeat split. eexists. reflexivity. Qed.
+
+(* ---- the emitted program ------------------------------------------------------ *)
+(* every emitted operation addresses existing modes in the shape the gate library
+   expects (even base mode, block inside the circuit, legal target, distinct
+   qubits for routing swaps, angle taken from a rotation instruction that has
+   one); the rule qubits are exactly the qubits used by multi-qubit instructions *)
+Theorem C12_emitted_wf :
+  forall nq allow gs ops rules,
+    Forall (in_range nq) gs ->
+    convert allow gs = Ok (ops, rules) ->
+    Forall (op_wf nq gs) ops /\
+    (forall l, rules = Some l -> NoDup l /\ l <> [] /\ forall q, In q l <-> touched gs q) /\
+    (rules = None -> allow = false \/ forall q, ~ touched gs q).
+Proof. exact emitted_wf. Qed.
+Print Assumptions C12_emitted_wf.
+
+(* allow_post_selection = False: heralded two-qubit gates only, no rules *)
+Theorem C12_heralded_only :
+  forall gs ops rules,
+    convert false gs = Ok (ops, rules) -> rules = None /\ Forall op_heralded ops.
+Proof. exact heralded_only. Qed.
+Print Assumptions C12_heralded_only.
+
+(* The emitted program read at qubit level IS the source program: for every
+   interpretation [act] of named gates on ordered qubit lists and [sw] of the
+   exchange of two qubits that satisfies the relabelling laws (conjugation by an
+   exchange relabels the gate, disjoint exchanges commute, the swap gate is the
+   exchange, cz/ccz/ccx-controls are symmetric), running the emitted operations
+   equals running the source instructions.  Covers dispatch, mode arithmetic,
+   CNOT/CCNOT target choice and the inserted swaps, for every program. *)
+Theorem C12_emitted_denotes_source :
+  forall (St : Type) (act : gname -> nat -> list nat -> St -> St) (sw : nat -> nat -> St -> St),
+    (forall a b c d s, a <> c -> a <> d -> b <> c -> b <> d -> sw a b (sw c d s) = sw c d (sw a b s)) ->
+    (forall a b g i qs s, sw a b (act g i qs (sw a b s)) = act g i (map (transp a b) qs) s) ->
+    (forall i a b s, act Gswap i [a; b] s = sw a b s) ->
+    (forall i a b s, act Gcz i [a; b] s = act Gcz i [b; a] s) ->
+    (forall i l l' s, Permutation l l' -> act Gccz i l s = act Gccz i l' s) ->
+    (forall i a b t s, act Gccx i [a; b; t] s = act Gccx i [b; a; t] s) ->
+    forall allow gs ops rules s,
+      Forall (fun g => NoDup (g_qubits g)) gs ->
+      convert allow gs = Ok (ops, rules) ->
+      run_ops St act sw ops s = run_src St act 0 gs s.
+Proof. exact emitted_denotes_source. Qed.
+Print Assumptions C12_emitted_denotes_source.
+
+(* ---- post-selection, photon-count abstraction (ConvertP.v part F) ------------ *)
+(* "every execution accepted by the final rules is failure-free" holds IF AND
+   ONLY IF each post-selected gate has at most one qubit used by a later
+   multi-qubit gate *)
+Theorem C12_post_selection_sound_abstract :
+  forall gfs, distinct_qubits gfs ->
+    ((forall c tr, all_ones c -> exec gfs c tr -> accepted gfs (last tr c) -> Forall all_ones tr)
+     <-> ps_safe gfs).
+Proof. exact post_selection_sound_abstract. Qed.
+Print Assumptions C12_post_selection_sound_abstract.
+
+(* the (repaired) analyzer guarantees the right-hand side, hence with the flags
+   and rules the converter computes an accepted execution never contains a failed
+   post-selected gate *)
+Theorem C12_analyzer_flags_safe :
+  forall allow gs, ps_safe (combine gs (ps_flags allow gs)).
+Proof. exact ps_flags_safe. Qed.
+Print Assumptions C12_analyzer_flags_safe.
+
+Theorem C12_converter_post_selection_sound :
+  forall allow gs c tr,
+    Forall (fun g => NoDup (g_qubits g)) gs ->
+    all_ones c -> exec (combine gs (ps_flags allow gs)) c tr ->
+    (forall q, touched gs q -> last tr c q = 1) ->
+    Forall all_ones tr.
+Proof. exact converter_post_selection_sound. Qed.
+Print Assumptions C12_converter_post_selection_sound.
+
+(* F2: the pinned tree's rule [not all(q in has_ps for q in gate)] is refuted by
+   ccz(0,1,2); cz(0,1): both gates are flagged post-selectable, the condition
+   fails, and there is an accepted execution in which the ccz failed.  For
+   two-qubit instructions the old and the repaired rule coincide. *)
+Theorem C12_all_rule_refuted :
+  flags_all f2_witness = [true; true] /\
+  ~ ps_safe (combine f2_witness (flags_all f2_witness)) /\
+  exists tr cbad, exec (combine f2_witness (flags_all f2_witness)) (fun _ => 1) tr /\
+                  In cbad tr /\ ~ all_ones cbad /\ all_ones (last tr (fun _ => 1)).
+Proof. exact all_rule_refuted. Qed.
+Print Assumptions C12_all_rule_refuted.
+
+Theorem C12_all_rule_two_qubits :
+  forall g post, length (g_qubits g) = 2 -> can_ps_all g post = can_ps g post.
+Proof. exact all_rule_two_qubits. Qed.
+Print Assumptions C12_all_rule_two_qubits.
+
+(* hypotheses of the abstraction theorems are satisfiable by a non-trivial run:
+   cz(0,1) post-selected then cz(1,2) post-selected, ideal execution *)
+Example C12_abstract_nonvacuous :
+  let gs := [mkG Gcz [0; 1] false; mkG Gcz [1; 2] false] in
+  ps_flags true gs = [true; true] /\
+  Forall (fun g => NoDup (g_qubits g)) gs /\
+  exec (combine gs (ps_flags true gs)) (fun _ => 1) [fun _ => 1; fun _ => 1].
+Proof.
+  cbv zeta. split; [reflexivity|]. split.
+  - repeat constructor; cbn; intuition; discriminate.
+  - apply (exec_ideal (combine [mkG Gcz [0; 1] false; mkG Gcz [1; 2] false] [true; true]) (fun _ => 1)).
+    intros q; reflexivity.
+Qed.
+
+(* the laws assumed by C12_emitted_denotes_source are jointly satisfiable by an
+   interpretation in which exchanges act non-trivially *)
+Example C12_denote_laws_satisfiable :
+  (forall a b c d s, a <> c -> a <> d -> b <> c -> b <> d -> w_sw a b (w_sw c d s) = w_sw c d (w_sw a b s)) /\
+  (forall a b g i qs s, w_sw a b (w_act g i qs (w_sw a b s)) = w_act g i (map (transp a b) qs) s) /\
+  (forall i a b s, w_act Gswap i [a; b] s = w_sw a b s) /\
+  (forall i a b s, w_act Gcz i [a; b] s = w_act Gcz i [b; a] s) /\
+  (forall i l l' s, Permutation l l' -> w_act Gccz i l s = w_act Gccz i l' s) /\
+  (forall i a b t s, w_act Gccx i [a; b; t] s = w_act Gccx i [b; a; t] s) /\
+  w_act Gswap 0 [0; 1] [0; 1; 2] = [1; 0; 2].
+Proof. exact denote_laws_satisfiable. Qed.
